@@ -25,6 +25,10 @@ BODIES = {
     "rec": "rec {\n  a = 1;\n  b = 2;\n}",
     "inherit": "{\n  inherit q;\n  a = 1;\n}",
     "mixed": "{\n  a.b = 1;\n  a = {\n    c = 2;\n  };\n  d = 3;\n}",
+    # forced collisions: equal-looking attrpath leaves; explicit set before / between attrpath members
+    "twins": "{\n  d = 3;\n  s.a.e = 1;\n  s.b.e = 1;\n  b = 2;\n}",
+    "mixed_rev": "{\n  a = {\n    c = 2;\n  };\n  a.b = 1;\n  d = 3;\n}",
+    "mixed3": "{\n  a.b.c = 1;\n  a.b = {\n    d = 2;\n  };\n  a.b.e = 3;\n}",
 }
 WRAPPERS = {
     "lamf": "{ p }:\n%s",
@@ -35,6 +39,8 @@ WRAPPERS = {
     "assert": "assert c;\n%s",
     "paren": "(%s)",
     "call": "f %s",
+    "letap": "let\n  u.k = 1;\n  w = 3;\nin\n%s",  # a let layer holding an attrpath binding
+    "let2c": "let\n  u = 1;\nin\n# between\nlet\n  u = 2;\n  w = 3;\nin\n# before body\n%s",  # trivia between layers
 }
 
 
@@ -47,8 +53,11 @@ BODY_SIMPLER = {
     "rec": ["inline", "empty"],
     "inherit": ["inline", "empty"],
     "mixed": ["attrpath", "nested", "inline", "empty"],
+    "twins": ["attrpath", "inline", "empty"],
+    "mixed_rev": ["mixed", "attrpath", "nested", "inline", "empty"],
+    "mixed3": ["mixed", "deep", "attrpath", "inline", "empty"],
 }
-WRAPPER_SIMPLER = {"let2": ["let1"], "lamf": ["lam"]}
+WRAPPER_SIMPLER = {"let2": ["let1"], "lamf": ["lam"], "letap": ["let1"], "let2c": ["let2"]}
 
 
 def op_reductions(op):
@@ -103,7 +112,7 @@ def docs(max_stack: int, bodies=None, wrappers=None, layouts=("canon", "oneline"
 # --------------------------------------------------------------------------- operations
 
 PATHS = [
-    "a", "b", "z", "a.b", "a.c", "a.z", "d", "d.e", "y.x.w", '"q.r"', "a.b.c", '"a"', "q",
+    "a", "b", "z", "a.b", "a.c", "a.z", "d", "d.e", "y.x.w", '"q.r"', "a.b.c", '"a"', "q", "s.a.e", "s.b.e", "a.b.e", "a.b.d",
     "@u", "@z", "@@u", "@@@u", "@w", "@u.k", "@@z",
     "", "a..b", "a.", '"x', "@", "1x", 'a"b"', '"a\\',
 ]
